@@ -178,6 +178,31 @@ def _odd(mido, acc):
                     acc.violation(r[0], r[1], {'kind': 'nonint',
                                                'template': tmpl, 'pos': pos,
                                                'bad': repr(bad)})
+    # history dependence: decode a valid message first, then the "same"
+    # sequence with one item replaced by an equal non-integer (60.0 == 60,
+    # Fraction(60) == 60, Decimal(60) == 60 hash alike) - must still be
+    # rejected; then the valid one again must still decode.
+    from decimal import Decimal
+    from fractions import Fraction
+    for tmpl in TEMPLATES:
+        for rounds in range(2):
+            r = judge(mido, list(tmpl), list(tmpl), 'list')
+            acc.evals += 1
+            if r is not None:
+                acc.violation('history/' + r[0], r[1],
+                              {'kind': 'seq', 'seq': list(tmpl), 'form': 'list'})
+            for pos in range(len(tmpl)):
+                for conv in (float, Fraction, Decimal):
+                    arg = list(tmpl)
+                    arg[pos] = conv(tmpl[pos])
+                    acc.evals += 1
+                    acc.nontrivial += 1
+                    r = judge(mido, None, arg, 'list-equal-nonint',
+                              allow_type_error=True)
+                    if r is not None:
+                        acc.violation('history/' + r[0], r[1],
+                                      {'kind': 'nonint', 'template': tmpl,
+                                       'pos': pos, 'bad': conv.__name__})
     for empty in ([], (), b'', bytearray()):
         acc.evals += 1
         r = judge(mido, [], empty, 'empty')
@@ -235,6 +260,10 @@ def run():
     shards += [('long', first, 5) for first in BOUNDARY]
     if thorough:
         shards += [('long', first, 6) for first in BOUNDARY]
+    # The odd-item / history probes run first, in this fresh process, so that
+    # any module-level state in the decoder (caches, scratch buffers) is cold;
+    # they run a second time in a worker whose state is warm.
+    run_shards(worker, [('odd',)], rep, procs=1)
     shards.append(('odd',))
     run_shards(worker, shards, rep)
     # the empty sequence
